@@ -22,6 +22,7 @@ RULE = (
     "send_completion_complete, send_sampling_create_message, sample_* helpers, discovered builders) applied to models built from generated wire objects; oracle: the produced wire "
     "data contains every member of the input under its wire name and no key that is the Python attribute name of an aliased field (schema_, meta); "
     "non-trivial = W has >=1 alias populated or >=1 extra member; distinct = distinct (class/function, W, backend)"
+    "; added in rounds 6-7 of the seeded changes: respelt member names as unknown members; plain dump before the first wire dump (fresh process); equal containers shared by reference; all discovered create_* builders"
 )
 ASSUMPTIONS = [
     "valid wire object as in C09 (type-directed from the model's own annotations; optional members absent rather than null; nulls only nested inside Any/Dict payloads)",
